@@ -30,7 +30,7 @@ M0(tr) == [cfg |-> tr.cfg, r |-> << >>, lastSid |-> 0,
            cliIW |-> 65535, rGrantC |-> 65535, rSentC |-> 0,
            setSent |-> 0, ackRecv |-> 0, pushAdvertised |-> -1,
            goaway |-> FALSE, gaLast |-> 0, gaCode |-> 0, gaSettled |-> FALSE,
-           openBlockES |-> FALSE, openBlockSid |-> 0, peerGone |-> FALSE, userClosed |-> FALSE, connClosed |-> FALSE, connErr |-> FALSE, badSettings |-> FALSE,
+           openBlockES |-> FALSE, openBlockSid |-> 0, peerGone |-> FALSE, userClosed |-> FALSE, connClosed |-> FALSE, connErr |-> FALSE, badSettings |-> FALSE, pushSent |-> FALSE,
            bad |-> {}]
 
 Rq(mm, i) == IF i \in DOMAIN mm.r THEN mm.r[i] ELSE R0
@@ -134,7 +134,9 @@ OnSend(mm, e) ==
       i == IF "req" \in DOMAIN e THEN e.req ELSE 0
       x == Rq(mm, i)
   IN
-  IF f.ty = T_SETTINGS THEN
+  \* the client advertises ENABLE_PUSH = 0: a PUSH_PROMISE, on whatever stream, is a connection error (RFC 7540 6.6, 8.2)
+  IF f.ty = T_PUSH THEN [mm EXCEPT !.pushSent = TRUE]
+  ELSE IF f.ty = T_SETTINGS THEN
      IF f.ack THEN mm
      ELSE LET m1 == [mm EXCEPT !.setSent = @ + 1,
                                !.srvMFS = IF f.mfs >= 0 /\ f.sbad = 0 THEN f.mfs ELSE @,
@@ -183,7 +185,7 @@ OnResolve(mm, e) ==
       c7 == FlagIf(c6, e.ok /\ complete /\ ~x.rBad /\ (e.blen # x.rbody \/ ~e.bodyok), "C02:response-body-differs")
       c8 == FlagIf(c7, e.ok /\ x.rRst, "C12:success-after-rst-stream")
       c9 == FlagIf(c8, e.ok /\ mm.goaway /\ x.sid > mm.gaLast /\ x.sid # 0, "C11:request-above-last-stream-id-succeeded")
-      c10 == FlagIf(c9, ~e.ok /\ complete /\ ~x.rBad /\ ~x.rRst /\ ~x.canceled /\ ~mm.userClosed /\ ~mm.peerGone /\ ~mm.connErr /\ ~mm.badSettings
+      c10 == FlagIf(c9, ~e.ok /\ complete /\ ~x.rBad /\ ~x.rRst /\ ~x.canceled /\ ~mm.userClosed /\ ~mm.peerGone /\ ~mm.connErr /\ ~mm.badSettings /\ ~mm.pushSent
                         /\ (~mm.goaway \/ x.sid <= mm.gaLast) /\ e.errclass \notin {"connclosed"},
                     "C20:well-formed-response-rejected " \o e.errclass)
       \* retried (or reported retryable) only when the server cannot have processed the request: its HEADERS never
@@ -194,7 +196,7 @@ OnResolve(mm, e) ==
 
 -----------------------------------------------------------------------------
 OnQ(mm, e) ==
-  LET live == ~mm.connClosed /\ ~mm.peerGone /\ ~mm.userClosed /\ ~e.settled /\ ~e.wlx /\ ~e.rlx /\ ~mm.connErr /\ ~mm.badSettings
+  LET live == ~mm.connClosed /\ ~mm.peerGone /\ ~mm.userClosed /\ ~e.settled /\ ~e.wlx /\ ~e.rlx /\ ~mm.connErr /\ ~mm.badSettings /\ ~mm.pushSent
       stalled == {i \in DOMAIN mm.r : LET x == mm.r[i] IN
                      x.sid # 0 /\ x.es = 0 /\ ~x.rstByClient /\ ~x.rRst /\ ~x.canceled /\ x.res = 0 /\ x.given.kind # "none"
                      /\ x.body < x.given.n /\ x.grant - x.sent > 0 /\ mm.grantC - mm.sentC > 0}
@@ -210,7 +212,8 @@ OnQ(mm, e) ==
       c5 == FlagIf(c4, live /\ mm.ackRecv # mm.setSent, "C18:settings-not-acknowledged-exactly-once")
       c6 == FlagIf(c5, ~e.settled /\ aboveLast # {} /\ ~mm.peerGone, "C11:request-above-last-stream-id-not-failed-promptly")
       c7 == FlagIf(c6, ~e.settled /\ mm.badSettings /\ e.canopen /\ ~e.closed, "C18:invalid-settings-value-accepted")
-      c8 == FlagIf(c7, ~e.settled /\ mm.goaway /\ e.canopen, "C11:connection-still-offered-for-new-streams-after-goaway")
+      c8a == FlagIf(c7, ~e.settled /\ mm.goaway /\ e.canopen, "C11:connection-still-offered-for-new-streams-after-goaway")
+      c8 == FlagIf(c8a, ~e.settled /\ mm.pushSent /\ e.canopen /\ ~e.closed, "C18:push-promise-tolerated-although-enable-push-0-was-advertised")
   IN [c8 EXCEPT !.gaSettled = mm.goaway, !.connClosed = e.closed]
 
 OnEnd(mm, e) ==
